@@ -269,7 +269,8 @@ pub fn collect_err<N: ArrayLength, E: Elem>(entry: u8, c: usize, bomb: Option<u6
 }
 
 /// functional operations whose closure drops its argument(s).
-/// kind: 0 map owned, 1 zip owned/owned, 2 fold owned, 3 map boxed, 4 zip owned/owned keeping the left, 5 fold boxed
+/// kind: 0 map owned, 1 zip owned/owned, 2 fold owned, 3 map boxed, 4 zip owned/owned keeping the left, 5 fold boxed,
+/// 6 zip owned/&, 7 zip owned/&mut, 8 zip &/owned, 9 zip &mut/owned, 10 zip boxed/boxed
 pub fn func_drop<N: ArrayLength, E: Elem>(kind: u8, bomb: Option<u64>) -> Result<Out, String> {
     run5::<E, ()>(
         bomb,
@@ -293,7 +294,41 @@ pub fn func_drop<N: ArrayLength, E: Elem>(kind: u8, bomb: Option<u64>) -> Result
                 drop(b);
                 a
             })),
-            _ => Box::new(mk::<E, N>()).fold((), |_, a| drop(a)),
+            5 => Box::new(mk::<E, N>()).fold((), |_, a| drop(a)),
+            // owned receiver, borrowed argument (and vice versa): the trait-default zip bodies
+            6 => {
+                let b = mk::<E, N>();
+                drop(mk::<E, N>().zip(&b, |a, _| {
+                    drop(a);
+                    0u32
+                }));
+            }
+            7 => {
+                let mut b = mk::<E, N>();
+                drop(mk::<E, N>().zip(&mut b, |a, _| {
+                    drop(a);
+                    0u32
+                }));
+            }
+            8 => {
+                let a = mk::<E, N>();
+                drop((&a).zip(mk::<E, N>(), |_, b| {
+                    drop(b);
+                    0u32
+                }));
+            }
+            9 => {
+                let mut a = mk::<E, N>();
+                drop((&mut a).zip(mk::<E, N>(), |_, b| {
+                    drop(b);
+                    0u32
+                }));
+            }
+            _ => drop(Box::new(mk::<E, N>()).zip(Box::new(mk::<E, N>()), |a, b| {
+                drop(a);
+                drop(b);
+                0u32
+            })),
         },
         |_| (),
         None,
@@ -416,8 +451,8 @@ pub fn run(ctx: &mut Ctx) {
                 drive5(ctx, &format!("C05;collect-{en};N={};c={c};E=TrZ", N::USIZE), &|bm| collect_err::<N, TrZ>(entry, c, bm));
             }
         }
-        for kind in 0u8..6 {
-            let kn = ["map-owned", "zip-owned-owned", "fold-owned", "map-boxed", "zip-keep-left", "fold-boxed"][kind as usize];
+        for kind in 0u8..11 {
+            let kn = ["map-owned", "zip-owned-owned", "fold-owned", "map-boxed", "zip-keep-left", "fold-boxed", "zip-owned-ref", "zip-owned-mut", "zip-ref-owned", "zip-mut-owned", "zip-box-box"][kind as usize];
             drive5(ctx, &format!("C05;{kn}-dropping-closure;N={};E=Tr4", N::USIZE), &|bm| func_drop::<N, Tr<0>>(kind, bm));
             drive5(ctx, &format!("C05;{kn}-dropping-closure;N={};E=TrZ", N::USIZE), &|bm| func_drop::<N, TrZ>(kind, bm));
         }
